@@ -86,4 +86,118 @@ def run (w : Nat) (a : Nat) : List Op → List (List Nat)
   | [] => []
   | op :: rest => let r := step w a op; r.2 :: run w r.1 rest
 
+/-! ## a bit-field key with a lifetime
+
+One key of `Memory.store` under the (virtual) clock: bit-field keys live in the same TTL store as
+every other key — `expire(key, t)` gives a filter a deadline, and an entry whose deadline has
+passed stays *physically* in `store` until something reads it (`_get` deletes it then) or the
+purge task sweeps it.  Time is in ticks (`Nat`), as everywhere in the models. -/
+
+/-- `store[key] = (expire_at, array)` -/
+structure Slot where
+  a  : Nat
+  dl : Option Nat          -- absolute deadline; `none` = no TTL
+  deriving Repr, DecidableEq
+
+/-- `expire_at and expire_at <= time.time()` -/
+def Slot.expired (s : Slot) (now : Nat) : Bool :=
+  match s.dl with
+  | none => false
+  | some d => decide (d ≤ now)
+
+structure TState where
+  now  : Nat
+  slot : Option Slot       -- `none` = `key not in self.store`
+  deriving Repr, DecidableEq
+
+/-- what the key holds *logically*: an entry at or after its deadline is not there -/
+def TState.view (t : TState) : Option Slot :=
+  match t.slot with
+  | none => none
+  | some s => if s.expired t.now then none else some s
+
+/-- `Memory._get(key, default)`:
+```
+if key not in self.store: return default
+expire_at, value = self.store[key]
+if expire_at and expire_at <= time.time():
+    await self._delete(key); return default
+return value
+```
+answers the store afterwards and the entry found (`none` = the default came back) -/
+def tget (t : TState) : TState × Option Slot :=
+  match t.slot with
+  | none => (t, none)
+  | some s => if s.expired t.now then ({ t with slot := none }, none) else (t, some s)
+
+/-- `Memory._set(key, value, expire)`:
+```
+expire = time.time() + expire if expire else None
+if expire is None and key in self.store:
+    expire, _ = self.store[key]
+    if expire is not None and expire <= time.time(): expire = None
+self.store[key] = (expire, copy(value))
+```
+(`ttl = 0` stands for both `None` and `0`) -/
+def tset (t : TState) (a : Nat) (ttl : Nat) : TState :=
+  let dl : Option Nat :=
+    if ttl ≠ 0 then some (t.now + ttl)
+    else match t.slot with
+      | none => none
+      | some s => if s.expired t.now then none else s.dl
+  { t with slot := some ⟨a, dl⟩ }
+
+/-- the commands that can reach a bit-field key, plus passage of time -/
+inductive TOp where
+  | getBits (idxs : List Nat)
+  | incrBits (idxs : List Nat) (by_ : Int)
+  | expire (ttl : Nat)       -- `expire(key, ttl)`
+  | delete                   -- `delete(key)`
+  | touch                    -- `exists(key)`; also what one sweep of the purge task does to the key
+  | adv (dt : Nat)           -- `dt` ticks pass, nothing touches the key
+  deriving Repr
+
+def b2l (b : Bool) : List Nat := if b then [1] else [0]
+
+/-- one command on the key, at width `w`; the answer is a list of numbers (`expire`/`adv`: empty,
+`delete`/`touch`: `[1]` for True, `[0]` for False)
+```
+get_bits:  array = await self._get(key, default=Bitarray("0")); return tuple(array.get(i, size) …)
+incr_bits: array = await self._get(key, default=Bitarray("0")); …incr…; self._set(key, array)
+expire:    if not await self._key_exist(key): return
+           value = await self._get(key, default=_missed); …; self._set(key, value, timeout)
+_delete:   if key in self.store: expire_at, _ = self.store.pop(key); return not (expire_at and expire_at <= time.time())
+           return False
+``` -/
+def tstep (w : Nat) (t : TState) : TOp → TState × List Nat
+  | .getBits idxs =>
+    let r := tget t
+    (r.1, getBits ((r.2.map (·.a)).getD 0) idxs w)
+  | .incrBits idxs by_ =>
+    let r := tget t
+    let x := incrBits ((r.2.map (·.a)).getD 0) idxs w by_
+    (tset r.1 x.1 0, x.2)
+  | .expire ttl =>
+    let r := tget t
+    match r.2 with
+    | none => (r.1, [])
+    | some s => (tset r.1 s.a ttl, [])
+  | .delete =>
+    match t.slot with
+    | none => (t, b2l false)
+    | some s => ({ t with slot := none }, b2l (!s.expired t.now))
+  | .touch =>
+    let r := tget t
+    (r.1, b2l r.2.isSome)
+  | .adv dt => ({ t with now := t.now + dt }, [])
+
+def trun (w : Nat) (t : TState) : List TOp → List (List Nat)
+  | [] => []
+  | op :: rest => let r := tstep w t op; r.2 :: trun w r.1 rest
+
+/-- the state after a history -/
+def tstate (w : Nat) (t : TState) : List TOp → TState
+  | [] => t
+  | op :: rest => tstate w (tstep w t op).1 rest
+
 end CashewsVerif.Bits
